@@ -29,7 +29,7 @@ _JOBS = []
 _SPECS = None
 
 
-def ground_closure(specs, formulas, depth=DEPTH):
+def ground_closure(specs, formulas, depth=DEPTH, opaque=()):
     extra = []
     seen_apps = set()
     keep = []           # keyed by ast id: keep the terms alive (z3 re-uses ids after GC)
@@ -42,6 +42,8 @@ def ground_closure(specs, formulas, depth=DEPTH):
                 continue
             seen_apps.add(a.get_id())
             keep.append(a)
+            if opaque and specs.by_decl[a.decl().name()].name in opaque:
+                continue                     # kept abstract in this query (lemma-level reasoning)
             new.append(specs.instance(a))
         if not new:
             break
@@ -342,7 +344,7 @@ def solve_job(i):
         base = list(KS.BACKGROUND) + list(job["facts"]) + [z3.Not(job["goal"])]
         kind = job["kind"]
         tmo = T_CANARY if kind == "canary" else T_MAIN
-        ga = ground_closure(specs, base)
+        ga = ground_closure(specs, base, depth=job.get("depth", DEPTH), opaque=job.get("opaque", ()))
         res = {"status": "unknown", "backend": "z3", "detail": "", "model_inputs": None}
         abstracted = [abstract_nl(f) for f in base + ga] + nl_axioms()
         # quick first attempt (proofs take milliseconds); if it does not succeed the full-budget
@@ -377,7 +379,7 @@ def solve_job(i):
             return out
 
         def axioms():
-            names = used_spec_names(specs, base + ga)
+            names = used_spec_names(specs, base + ga) - set(job.get("opaque", ()))
             return [specs.quantified_axiom(n) for n in sorted(names)] + col_axioms()
 
         def stage_b():
